@@ -107,10 +107,12 @@ func stakeOf(c sdk.Coins) int64 {
 	return tot
 }
 
-func (w *World) Snapshot() *Snapshot {
+func (w *World) Snapshot() *Snapshot { return w.SnapshotAt(w.ctx) }
+
+func (w *World) SnapshotAt(ctx sdk.Context) *Snapshot {
 	s := &Snapshot{
-		Height:     w.ctx.BlockHeight(),
-		TimeNs:     w.ctx.BlockTime().UnixNano(),
+		Height:     ctx.BlockHeight(),
+		TimeNs:     ctx.BlockTime().UnixNano(),
 		Defs:       map[string]types.ServiceDefinition{},
 		Binds:      map[string]types.ServiceBinding{},
 		BindKeyOK:  map[string]bool{},
@@ -129,7 +131,7 @@ func (w *World) Snapshot() *Snapshot {
 		Bal:        map[string]int64{},
 	}
 	cdc := w.app.AppCodec()
-	store := w.ctx.KVStore(w.app.GetKey(types.StoreKey))
+	store := ctx.KVStore(w.app.GetKey(types.StoreKey))
 	it := store.Iterator(nil, nil)
 	for ; it.Valid(); it.Next() {
 		k := append([]byte{}, it.Key()...)
@@ -296,7 +298,7 @@ func (w *World) Snapshot() *Snapshot {
 	it.Close()
 
 	// bank: "balances" | addr | denom ; one denom ("stake") exists in the harness world
-	bstore := w.ctx.KVStore(w.app.GetKey("bank"))
+	bstore := ctx.KVStore(w.app.GetKey("bank"))
 	bit := sdk.KVStorePrefixIterator(bstore, []byte("balances"))
 	for ; bit.Valid(); bit.Next() {
 		k := bit.Key()
@@ -309,7 +311,7 @@ func (w *World) Snapshot() *Snapshot {
 		s.Bal[a] += mustI64(c.Amount)
 	}
 	bit.Close()
-	s.Supply = mustI64(w.app.BankKeeper.GetSupply(w.ctx).GetTotal().AmountOf("stake"))
+	s.Supply = mustI64(w.app.BankKeeper.GetSupply(ctx).GetTotal().AmountOf("stake"))
 	return s
 }
 
